@@ -232,7 +232,10 @@ func c09Exec(c *Ctx, e *c09Env, id int, cs *c09Case) *c09ProcResult {
 	}
 	cmd := exec.Command(c.Pprof, args...)
 	cmd.Dir = work
-	cmd.Env = append(append([]string{}, e.env...), cs.Env...)
+	cmd.Env = append([]string{}, e.env...)
+	for _, kv := range cs.Env { // {TMP} = this run's scratch directory (keeps replay files self-contained)
+		cmd.Env = append(cmd.Env, strings.ReplaceAll(kv, "{TMP}", e.tmp))
+	}
 	cmd.Stdin = &stdin
 	var errb bytes.Buffer
 	cmd.Stderr = &errb
@@ -1097,7 +1100,7 @@ func c09Web(c *Ctx, cs *c09Case) {
 
 func runC09(c *Ctx) {
 	c.Res.Rule = "correspondence (in-process, exported plug-in API): -tagfocus values vs model outcome class; interactive sessions with a scripted UI vs the model's per-line events, output file, active filters and final option values; candidate-binary counts of locateBinaries; command/option tables. " +
-		"Campaign (real pprof binary, one process per case; web handlers through the HTTPServer hook): valid profiles with odd strings/ids/addresses/line numbers/0-1-2-character build ids/labels/units and per-column value patterns (one column zero, all zero, only one column non-zero, cancelling +v/-v, MinInt64/MaxInt64, negative, ones) x option assignments; every fourth CLI/script case and every third web UI also gets -base/-diff_base profiles (same, same stacks with another value pattern, subset, other profile with the same types, reordered/renamed types, unrelated) and the boolean/choice/sample_index option grid (mean, normalize, relative_percentages, call_tree, drop_negative, noinlines, showcolumns, trim, granularity, sort, each sample type) x option assignments x interactive scripts (grammar + noise + mutation operators over valid lines: case changes incl. unicode case variants of command/option names, digit abbreviations, separator noise, redirections and pipes with odd targets, prefixes/suffixes/concatenations of command names, mixed-case help) x URL query strings; failing input = panic trace, recovered panic, hang, abnormal exit, or a session/server that stops answering. " +
+		"Campaign (real pprof binary, one process per case; web handlers through the HTTPServer hook): first a deterministic grid of every output command x every option that changes graph construction or trimming (alone and with call_tree) x two trimming settings on a profile with several calling contexts per function; then valid profiles with odd strings/ids/addresses/line numbers/0-1-2-character build ids/labels/units and per-column value patterns (one column zero, all zero, only one column non-zero, cancelling +v/-v, MinInt64/MaxInt64, negative, ones) x option assignments; every fourth CLI/script case and every third web UI also gets -base/-diff_base profiles (same, same stacks with another value pattern, subset, other profile with the same types, reordered/renamed types, unrelated) and the boolean/choice/sample_index option grid (mean, normalize, relative_percentages, call_tree, drop_negative, noinlines, showcolumns, trim, granularity, sort, each sample type) x option assignments (every 8th case fetches its profile from an http URL served by the harness, with faults on the path that saves the local copy: unusable PPROF_TMPDIR/HOME/TMPDIR, file names from profile strings with separators, NUL, over-long) x interactive scripts (grammar + noise + mutation operators over valid lines: case changes incl. unicode case variants of command/option names, digit abbreviations, separator noise, redirections and pipes with odd targets, prefixes/suffixes/concatenations of command names, mixed-case help) x URL query strings; failing input = panic trace, recovered panic, hang, abnormal exit, or a session/server that stops answering. " +
 		"Non-trivial: tagfilter values containing a digit; sessions with at least one assignment or report line; locate cases with a build id; CLI cases that got past flag parsing and profile loading; scripts whose session started; web requests answered 200/400."
 	e := c09Setup()
 	if f := flag.Lookup("replay"); c.Replay == "" || (f != nil && f.Value.String() != "") {
@@ -1235,7 +1238,7 @@ func runC09(c *Ctx) {
 					}
 				}
 				if fr.Chance(25) {
-					cs.Env = append(cs.Env, "PPROF_BINARY_PATH="+fr.Pick([]string{e.tmp + "/home", ":", "/nonexistent", e.tmp + "/home:" + e.tmp + "/cfg", "relative/dir", e.tmp + "/emptybin"}))
+					cs.Env = append(cs.Env, "PPROF_BINARY_PATH="+fr.Pick([]string{"{TMP}/home", ":", "/nonexistent", "{TMP}/home:{TMP}/cfg", "relative/dir", "{TMP}/emptybin"}))
 				}
 				if i < nCLI {
 					cs.Kind = "cli"
